@@ -35,7 +35,7 @@ fn classify(e: &str) -> String {
 pub fn run_cli(toks: &[&str], dir: &Path) -> String {
     let flags = toks[1];
     let dup: u8 = toks[2].parse().unwrap();
-    let root: PathBuf = dir.join("sb");
+    let root: PathBuf = fresh_sandbox(dir);
     build_tree_pub(&root, toks[3]);
     let clidir = root.join("cli");
     std::fs::create_dir_all(&clidir).unwrap();
